@@ -32,15 +32,23 @@ class EqGen:
     """values as trees (so that a value can be PERTURBED at one numeric leaf into a host-hash-colliding partner), rendered to program text"""
     def __init__(s, R): s.R = R
     def integer(s):
-        R = s.R; k = R.random(); base = R.choice([0, 1, -1, -2, 2, 5, 2**53, 2**53 + 1, 2**60, 7])
+        R = s.R; k = R.random(); base = R.choice([0, 1, -1, -2, 2, 5, 2**53, 2**53 + 1, 2**60, 7, 2**40, 10**9, 2**31])
         if k < .4: return base
         if k < .7: return base + R.choice([1, -1, 2]) * MP
         if k < .8: return R.choice([-1, -2])
         return R.randrange(-5, 6)
+    def dyadic(s):
+        """a NON-integral real m / 2^k, exactly representable: small ones (0.5, -1.5) and large ones whose fraction is tiny relative to the value
+        (2^40 + 0.5: anything that compares reals through a tolerance, or through their printed / truncated form, merges it with 2^40)"""
+        R = s.R; k = R.randrange(1, 4); c = R.random()
+        if c < .3: return ("dy", R.choice([1, -1, 3, -3, 5]), k)
+        big = R.choice([2**31, 2**40, 2**45, 2**49, 10**9, 10**12, 3 * 2**38]); m = big * 2**k + R.choice([1, -1, 2**k - 1])
+        return ("dy", R.choice([1, -1]) * m, k)
     def atom_t(s):
         R = s.R; k = R.random()
         if k < .35: return ("int", s.integer())
-        if k < .55: return ("float", R.choice([0, 1, -1, 2, 2**53, 2**53 + 1, 2**60, 2**61 - 1, R.randrange(-5, 6)]))
+        if k < .50: return ("float", R.choice([0, 1, -1, 2, 2**53, 2**53 + 1, 2**60, 2**61 - 1, R.randrange(-5, 6)]))
+        if k < .55: return s.dyadic()
         if k < .60: return ("inf",)
         if k < .70: return ("bool", R.random() < .5)
         if k < .82: return ("str", R.randrange(-3, 4))
@@ -59,6 +67,7 @@ class EqGen:
         k = t[0]
         if k == "int": return E(t[1])
         if k == "float": return call("ㅅㅅ", [E(t[1])])
+        if k == "dy": return call("ㄱ", [call("ㅅㅅ", [E(t[1])]), call("ㅅ", [call("ㅅㅅ", [E(2)]), E(-t[2])])])      # m * 2.0 ** -k, exact
         if k == "inf": return call("ㅂ", ["ㅂ", "ㅅ", "ㅁ"])
         if k == "bool": return call("ㅈㅈ" if t[1] else "ㄱㅈ", [])
         if k == "str": return call("ㅁㅈ", [E(t[1])]) if t[1] != -9 else "(ㅁㅈㅎㄱ)"
@@ -81,6 +90,14 @@ class EqGen:
             if k == "nil": return R.choice([("list", []), ("exc", []), ("dict", []), ("str", -9), ("int", 0), ("bool", False)])
             if k == "dict" and not t[1]: return R.choice([("list", []), ("exc", []), ("nil",)])
             if k == "str": return ("int", t[1]) if R.random() < .5 else ("list", [("str", t[1])])
+        if k == "dy":      # the integer / integral real next to it, or another real with the same integer part: all DIFFERENT from it
+            m, j = t[1], t[2]; c = R.random(); fl = m // 2**j
+            if c < .3: return ("int", fl + R.choice([0, 1]))
+            if c < .6: return ("float", fl + R.choice([0, 1]))
+            if c < .8: return ("dy", m + R.choice([1, -1]), j) if j > 1 or abs(m) > 4 else ("dy", 2 * m + 1, j + 1)
+            return ("dy", -m, j)
+        if k in ("int", "float") and abs(t[1]) >= 2**31 and abs(t[1]) < 2**49 and R.random() < .3:
+            return ("dy", t[1] * 2 + R.choice([1, -1]), 1)
         if k in ("int", "float"):
             n = t[1]; c = R.random()
             if c < .35: return (k, n + R.choice([1, -1, 2, -2]) * MP)
@@ -586,6 +603,29 @@ def c18_cli(r, seed, tier, model_ok):
             ok = rv[0] in ("RET", "EXIT") and rv[1] == want[1]
             if want[0] == "status+out": ok = ok and out == want[2]
             if not ok: bad.append(dict(program=text, impl=f"{rv} out={out!r}", model=str(want), which=["cli"]))
+    # the same front end in the model (Cli.cli_run, about which Props/Prop_C18.v proves exit_status_is_an_integer, cli_stages ...): generated
+    # programs of every result kind x argument vectors x stdin - status / error class, bytes written and input left must agree
+    if model_ok:
+        import slices_core
+        mc = [(t, a) for t, a, _, _ in progs]
+        for _ in range(N(tier, 400, 6000)):
+            k = R.random(); args = tuple(R.choice(["", "a", "bc", "한글", "7", " "]) for _ in range(R.randrange(0, 4)))
+            if k < .35: t = slices_core.io_text_closed(R, R.randrange(1, 4))[0]
+            elif k < .7: t = " ".join(G.words(G.G(R).gen(R.choice([G.INT, G.INT, G.BOOL, G.STR, G.LIST(G.INT), G.FUN([G.INT], G.INT)]), [], R.randrange(2, 14))))
+            elif k < .85: t = R.choice([f"{E(R.randrange(0, 3))}ㅇㄱ ㅈㄷㅎㄴ ㅎ", "ㄱㅇㄱ ㅈㄹㅎㄴ ㅎ", "ㄱㅇㄱ ㅎ", "ㄱㅇㄱ ㄴㅇㄱ ㄷㅎㄷ ㅈㄷㅎㄴ ㅎ", "(ㄱㅇㄱ ㅈㄹㅎㄴ) ((ㄴㅇㄴ ㅈㄷㅎㄴ) ㄱㅅㅎㄴ ㅎ) ㄱㄹㅎㄷ ㅎ", "ㅈㄷ ㅂㅂㅎㄴ", "(ㄹㅎㄱ) ㅎ", "ㄷㅈ", "(ㄱ ㄷㅂㅎㄴ ㄷㅈㅎㄴ) ㅎ"])
+            else: t = " ".join(R.choice([E(R.randrange(-2, 300)), "ㅂㄱㅎㄱ", "ㄱ ㅎ"]) for _ in range(R.randrange(0, 4)))
+            mc.append((t, args))
+        lines = ["CLI\t" + "|".join(vlib.cps(l) for l in ("l1", "l2")) + "\t" + (";".join(vlib.cps(a) for a in argv) if argv else "-") + "\t" + vlib.cps(t) for t, argv in mc]
+        mo = vlib.driver("driver", lines); cmp_ = collections.Counter(); badm = []
+        for (t, argv), m in zip(mc, mo):
+            rv, out, _ = run(t, argv)
+            if m in ("UNMODELLED", "FUEL", "V?") or m.startswith("FUEL") or m.startswith("SYNTAX"): cmp_["skipped:" + m.split()[0]] += 1; continue
+            mres, mout, mrest = m.split("\t")
+            ores = f"S {rv[1]}" if rv[0] in ("RET", "EXIT") else f"E {rv[1]}" if rv[0] == "LANGERR" else str(rv)
+            oout = "OUT " + ",".join(str(ord(c)) for c in out)
+            cmp_[ores.split()[0]] += 1
+            if ores != mres or oout != mout: badm.append(dict(program=t, argv=list(argv), impl=f"{ores} {oout}"[:300], model=f"{mres} {mout}"[:300], which=["cli-vs-model"]))
+        r.slice("cli_run_vs_model", len(mc), len({(t, a) for t, a in mc}), [mc[0][0], mc[-1][0]], dict(cmp_), "cli.run in-process vs Cli.cli_run of the model: exit status or error class + bytes written, on the oracle programs and on generated programs of every result kind x 0-3 argument strings", badm[:40])
     # real processes: the OS keeps status mod 256
     for v in [0, 3, 255, 256, 257][:N(tier, 3, 5)]:
         p = subprocess.run([vlib.PY, "-m", "pbhhg_py.cli", "-c", E(v)], cwd=vlib.REPO, capture_output=True, text=True, env=dict(os.environ, PYTHONPATH=vlib.REPO)); n += 1; cnt["process"] += 1
